@@ -1045,7 +1045,8 @@ def check_cli(text: str, cfgdir: str, cfgid: int, expect_out: str, eol: str) -> 
     """--check-only / --check-diff exit status against 'output differs'; --output writes the formatted text"""
     mformat, _, _ = impl()
     viol = []
-    d = common.scratch_dir('mverif-c16-')
+    d = os.path.join(cfgdir, f'w{os.getpid()}')   # one scratch directory per worker (removed with cfgdir)
+    os.makedirs(d, exist_ok=True)
     try:
         src = os.path.join(d, 'meson.build')
         with open(src, 'w', encoding='utf-8', newline='') as f:
@@ -1082,7 +1083,7 @@ def check_cli(text: str, cfgdir: str, cfgid: int, expect_out: str, eol: str) -> 
             if raw != expect_out.replace('\n', nl):
                 viol.append(('cli:output:end_of_line', f'end_of_line={eol} not applied to --output'))
     finally:
-        common.rmtree(d)
+        pass
     return viol
 
 
